@@ -145,7 +145,21 @@ func (cell c13cell) config(variant int) *cfg.Config {
 	case "set":
 		conf.Meta.Pkg, conf.Meta.ContainerType, conf.Meta.ContainerConstructor = cfg.P("gen"), cfg.P("Ctr"), cfg.P("NewCtr")
 	case "partial":
+		// every name has its own default: main / Gontainer / NewGontainer, whatever the other two are
 		conf.Meta.Pkg = cfg.P("gen")
+		switch (variant / 3) % 3 {
+		case 1:
+			conf.Meta.ContainerType = cfg.P("Registry")
+		case 2:
+			conf.Meta.ContainerConstructor = cfg.P("BuildIt")
+		}
+	case "unset":
+		switch (variant / 3) % 3 {
+		case 1:
+			conf.Meta.ContainerType = cfg.P("Registry")
+		case 2:
+			conf.Meta.ContainerConstructor = cfg.P("BuildIt")
+		}
 	}
 	conf.Meta.DefaultMustGetter = tri(cell.defMust)
 	pkg := []string{"pa", `"fixt/pb"`, "fixt/deep/pa", `"."`}[variant%4]
